@@ -96,6 +96,11 @@ def build(case):
                 blk = add_code_block(bi, data)
                 for off, sy, addend in exprs:
                     pending_exprs.append((bi, blk, off, sy, addend, 4))
+            elif d.get("uninit"):
+                # a block in the uninitialized tail of the interval (as in .bss), possibly behind a gap no block covers
+                bi.size += d.get("gap_before", 0)
+                blk = gtirb.DataBlock(offset=bi.size, size=len(d["bytes"]), byte_interval=bi)
+                bi.size += len(d["bytes"])
             else:
                 data = bytes(d["bytes"])
                 blk = add_data_block(bi, data)
@@ -467,7 +472,9 @@ def gen_case(rng, nblocks=None, with_data=True, with_funcs=True, nedits=None, cf
     for d in text:
         if d["kind"] == "code" and d.get("func") is not None and d["func"] not in seen:
             seen.add(d["func"])
-            d["entry"] = True
+            mine = [x for x in text if x["kind"] == "code" and x.get("func") == d["func"]]
+            # now and then the entry is not the first block of its function in the layout
+            (rng.choice(mine) if len(mine) > 1 and rng.random() < 0.15 else d)["entry"] = True
     case = {"isa": "X64", "ff": "ELF", "text": text, "externs": externs}
     if with_data and rng.random() < 0.2:
         # a second section with data blocks (symbols, pointers into the code)
@@ -495,7 +502,12 @@ def gen_case(rng, nblocks=None, with_data=True, with_funcs=True, nedits=None, cf
     if cfg_domain:
         # C03: keep the module inside "CFG consistent with the code": drop requests that would
         # leave code running off into data / the end of the section
-        case["edits"] = [e for e in case["edits"] if not runs_off_end(dict(case, edits=[e]))]
+        # judged on the whole request set (a later insertion may supply the terminator an earlier request removed);
+        # requests are dropped, last registered first, until the set is in the domain
+        while case["edits"] and runs_off_end(case):
+            groups = {e.get("all") for e in case["edits"] if e.get("all") is not None}
+            victim = case["edits"][-1]
+            case["edits"] = [e for e in case["edits"] if e is not victim and not (victim.get("all") is not None and e.get("all") == victim.get("all"))]
     return case
 
 
@@ -739,30 +751,55 @@ def flat_of(case):
     return out
 
 
+def _last_mnemonic(asm):
+    lines = [l.strip() for l in (asm or "").splitlines() if l.strip() and not l.strip().endswith(":") and not l.strip().startswith(".")]
+    return lines[-1].split()[0] if lines else None
+
+
+def final_tail(case, bi):
+    """mnemonic of the last instruction block `bi` holds once every request is applied ("EMPTY": no code left)"""
+    d = flat_of(case)[bi]
+    offs = block_layout(d)
+    mine = [(i, e) for i, e in enumerate(case.get("edits", [])) if e["block"] == bi]
+    pieces = []
+    for k, ins in enumerate(d["insns"]):
+        gone = any(e["op"] != "insert" and e["off"] <= offs[k] < e["off"] + e["len"] for _, e in mine)
+        if not gone:
+            pieces.append(((offs[k], 1, 0, 0), ins[0]))
+    for i, e in mine:
+        if e["op"] in ("insert", "replace"):
+            mn = _last_mnemonic(e.get("asm"))
+            if mn is not None:
+                pieces.append(((e["off"], 0, e["op"] == "replace", i), mn))
+    return max(pieces)[1] if pieces else "EMPTY"
+
+
 def runs_off_end(case):
-    """C03 is about modules whose CFG matches their code.  A request that removes the
-    terminator (jmp/ret) of a block which is not followed by code leaves code that runs off
-    into data or the end of the section: nothing the rewriter could connect it to."""
+    """C03 is about modules whose CFG matches their code, before and after: a request set that leaves a block which
+    is not followed by code without a final jmp/ret makes code run off into data or the end of the section - nothing
+    the rewriter could connect it to.  Judged on the final state of each block, all requests applied."""
     text = flat_of(case)
-    for e in case.get("edits", []):
-        d = text[e["block"]]
-        if d["kind"] != "code":
+    touched = {e["block"] for e in case.get("edits", [])}
+
+    def followed_by_code(i):
+        nxt = i + 1
+        return nxt < len(text) and text[nxt]["kind"] == "code" and text[nxt]["_sect"] == text[i]["_sect"]
+
+    for i in sorted(touched):
+        d = text[i]
+        if d["kind"] != "code" or not d["insns"] or followed_by_code(i):
             continue
-        size = block_size(d)
-        nxt = e["block"] + 1
-        follows_code = nxt < len(text) and text[nxt]["kind"] == "code" and text[nxt]["_sect"] == d["_sect"]
-        if follows_code:
-            continue
-        if e["op"] == "insert":
-            # code appended behind the last block's terminator that itself runs off the end
-            lines = [l.strip() for l in e.get("asm", "").splitlines() if l.strip() and not l.strip().endswith(":") and not l.strip().startswith(".")]
-            last = lines[-1].split()[0] if lines else ""
-            if e["off"] == size and last not in ("jmp", "ret"):
-                return True
-        elif e["off"] + e["len"] == size and d["insns"][-1][0] in ("jmp", "ret"):
+        t = final_tail(case, i)
+        while t == "EMPTY":
+            # nothing is left of the block: whatever falls into it now falls into what follows it
+            i -= 1
+            if i < 0 or text[i]["kind"] != "code" or text[i]["_sect"] != d["_sect"] or not text[i]["insns"]:
+                t = "ret"
+                break
+            t = final_tail(case, i)
+        if t not in ("jmp", "ret"):
             return True
     return False
-
 
 
 def predicted_rejections(case):
